@@ -40,6 +40,11 @@ impl Ctx {
     pub fn expired(&self) -> bool {
         Instant::now() >= self.deadline
     }
+    /// True once `percent` of the time up to the soft deadline is used: the main pass of a check stops there so that
+    /// the passes after it still run on a loaded machine.
+    pub fn expired_at(&self, percent: u32) -> bool {
+        Instant::now() >= self.start + (self.deadline - self.start) * percent / 100
+    }
     pub fn scale(&self, quick: u64, thorough: u64) -> u64 {
         let base = match self.tier {
             Tier::Quick => quick,
